@@ -196,6 +196,12 @@ func checkC06(c *h.Check) {
 			addProg(fmt.Sprintf("C06/lookalike-tag/tag=%d/provided=%d", ti, prov), &ir.Program{Root: p, Injectors: []*ir.Injector{inj}})
 		}
 	}
+	// the injector with the missing source sits in the first of two injector files (or the last; or none: control)
+	for _, bad := range []int{0, 4} {
+		for swap := 0; swap < 2; swap++ {
+			addProg(fmt.Sprintf("C06/two-injector-files/bad=%d/last=%d", bad, swap), twoFilesProgram(bad, swap == 1))
+		}
+	}
 	// Family F: one removal that leaves two types without a source (both forms of a struct provider; both members of a
 	// removed set), needed by siblings in every parameter order: every one of them is named.
 	for variant := 0; variant < 2; variant++ {
